@@ -144,7 +144,55 @@ def check_c18(pid, tier):
     return 1 if violations else 0
 
 
-CHECKS = {"C11": check_c11, "C18": check_c18}
+# ---- C19 --------------------------------------------------------------------------------------------
+
+def check_c19(pid, tier):
+    t0 = time.time()
+    sd = vlib.seed()
+    binary = vlib.go_build_test("comp")
+    work = vlib.scratch("c19")
+    quick = tier == "quick"
+    cases = os.path.join(work, "cases.ndjson")
+    fh = open(cases, "w")
+    states = 0
+    fams = {}
+    rng = random.Random(sd)
+    for fam in ("trie", "demux", "hier"):
+        depth = 2 if (fam != "demux" or not quick) else 1
+        buf = []
+        r = vlib.run_tlc("Routing", 'INIT Init\nNEXT Next\nCONSTANTS\n Comps = {"a","ab"}\n MaxDepth = %d\n Family = "%s"\n MaxTrieOps = %d\nINVARIANTS Sane Emit\n' % (
+            depth, fam, 3 if quick else 4), raw_sink=lambda m, raw: buf.append(raw), timeout=3000)
+        vlib.require_model_ok(r, "Routing " + fam)
+        states += r.distinct
+        fams[fam] = r.distinct
+        for raw in buf:
+            fh.write(raw + "\n")
+        if fam == "demux" and quick:
+            # plus a seeded sample of the depth-2 configurations
+            buf2 = []
+            r2 = vlib.run_tlc("Routing", 'INIT Init\nNEXT Next\nCONSTANTS\n Comps = {"a","ab"}\n MaxDepth = 2\n Family = "demux"\n MaxTrieOps = 3\nINVARIANTS Emit\n',
+                              raw_sink=lambda m, raw: buf2.append(raw), timeout=3000)
+            vlib.require_model_ok(r2, "Routing demux depth 2")
+            states += r2.distinct
+            for raw in rng.sample(buf2, min(8000, len(buf2))):
+                fh.write(raw + "\n")
+            fams["demux_depth2_sampled"] = min(8000, len(buf2))
+    fh.close()
+    rc, out = vlib.run_harness(binary, "TestRouting", {"COMP_CASES": cases, "COMP_OUT": work}, timeout=3000)
+    if rc != 0:
+        raise Broken("routing harness failed:\n" + out[-3000:])
+    n_events, rejects, vstates = validate_obs("RoutingContractTrace", os.path.join(work, "routing.ndjson"))
+    violations = report(pid, sd, rejects)
+    cov = {"states": states, "transitions": states, "traces_validated_against_impl": n_events, "cases_per_family": fams, "exhaustive": not quick,
+           "trace_validator_states": vstates, "samples": [json.loads(open(cases).readline())]}
+    vlib.write_evidence(pid, tier, "model_checking", cov, time.time() - t0, violations,
+                        ["instance names over the components {a, ab} (string- but not component-prefixes of each other) up to depth 2",
+                         "the demultiplexer is wired as pkg/blobstore/configuration does (trie of prefixes, one patcher per prefix, prefix as back end name)",
+                         "trie removals are generated only for names that are present"])
+    return 1 if violations else 0
+
+
+CHECKS = {"C11": check_c11, "C18": check_c18, "C19": check_c19}
 
 
 def check(pid, tier, replay=None):
